@@ -27,7 +27,7 @@ theorem fact_translated_all :
       "duallane_DLSigVerificationDecorator_AnteHandle", "duallane_DLIncrementSequenceDecorator_AnteHandle",
       "duallane_DLDeductFeeDecorator_AnteHandle", "keeper_Keeper_IsEmptyAccount",
       "keeper_erc20CustomPrecompiledContractRwTransferFrom_transfer", "types_Params_Validate", "indexer_TxIndexKey",
-      "indexer_parseBlockNumberFromKey", "evmlane_ELValidateBasicEoaDecorator_AnteHandle",
+      "indexer_parseBlockNumberFromKey", "indexer_isEthTx", "evmlane_ELValidateBasicEoaDecorator_AnteHandle",
       "evmlane_ELSetupExecutionDecorator_AnteHandle", "evmlane_ELEmitEventDecorator_AnteHandle"] := by
   decide +kernel
 
